@@ -53,6 +53,9 @@ type C14Payload struct {
 	// bit has the opposite value; the bit is flipped to its declared value before
 	// the read (what counts is the configuration when the file is read).
 	LateIgnore bool `json:"late_ignore,omitempty"`
+	// AsDefaults: the file is read with IniParser.ParseAsDefaults set (same
+	// oracles: on a fresh parser every entry is applied either way).
+	AsDefaults bool `json:"as_defaults,omitempty"`
 	Stores     []Op `json:"stores,omitempty"`
 	IniOpts    uint `json:"ini_opts,omitempty"`
 	CrashAfter int  `json:"crash_after,omitempty"`
@@ -587,6 +590,7 @@ func (propC14) Gen(r *Rng, idx int, tier string) *Scenario {
 	p.ChunksB, p.RestB = genChunkPlan(cr, len(text))
 	p.ViaFile = cr.Chance(1, 3)
 	p.LateIgnore = p.Source == "structured" && cr.Chance(1, 6)
+	p.AsDefaults = cr.Chance(1, 4)
 	if cr.Chance(1, 3) && len(text) > 0 {
 		p.ErrAt = cr.Range(1, len(text))
 		p.ErrKind = cr.Pick([]string{"EIO", "EINTR", "UNEXPECTED_EOF", "EACCES"})
@@ -746,7 +750,7 @@ func sameReadUpToCallOrder(a, b *OpResult) bool {
 
 func c14Read(sc *Scenario, data string, chunks []simrt.ReadStep, rest int, viaFile bool) (*Outcome, *OpResult) {
 	s2 := *sc
-	op := Op{Kind: "iniread", Chunks: chunks, Rest: rest}
+	op := Op{Kind: "iniread", Chunks: chunks, Rest: rest, AsDefaults: sc.C14 != nil && sc.C14.AsDefaults}
 	if len(chunks) == 1 && chunks[0].N < 0 {
 		// positional failure: {N: -at, Err: kind or "kind+with"}
 		op.Chunks = nil
@@ -1081,6 +1085,7 @@ func (propC14) Reductions(sc *Scenario) []func(*Scenario) bool {
 		func(s *Scenario) bool { s.C14.ErrAt, s.C14.Stall = 0, 0; return true },
 		func(s *Scenario) bool { s.C14.ViaFile = false; return true },
 		func(s *Scenario) bool { s.C14.LateIgnore = false; return true },
+		func(s *Scenario) bool { s.C14.AsDefaults = false; return true },
 		func(s *Scenario) bool { s.C14.TailNoise = nil; return true },
 		func(s *Scenario) bool { s.C14.NoFinalEOL = false; return true },
 		func(s *Scenario) bool {
